@@ -22,7 +22,9 @@ RULE = ("caption sets of 1-5 captions, 1-4 lines each of 1-80 characters over th
         "visible within three frames of its start; SCCReader on the output gives the same "
         "captions. Non-trivial: a line longer than 32 characters or >= 2 captions. "
         'A caption text may be repeated inside a set, and the writer object may have written '
-        'the same set before. ')
+        'the same set before. '
+        "Words include look-alikes of other formats' markup (&amp; &lt; <i> --> ...), which are "
+        "plain text here; the set sits at 0 s or around the 1 h / 2 h / 10 h / 24 h / 100 h marks. ")
 ASSUMPTIONS = [
     "a row break after a hyphen is a legitimate line-break opportunity (textwrap semantics)",
     "three frames = 3 * 1001/30000 s; the display instant is the first EOC word of the pair",
@@ -42,6 +44,9 @@ def line_strategy():
         st.builds(lambda a, b: a + "-" + b, st.text(st.sampled_from(LETTERS), min_size=1, max_size=10),
                   st.text(st.sampled_from(LETTERS), min_size=1, max_size=10)),
         st.sampled_from(["a", "I", "32", "well-known", "x" * 32, "y" * 33, "z" * 31]),
+        # look-alikes of other formats' markup, all within the basic table: they are plain text
+        st.sampled_from(["&amp;", "&lt;", "&gt;", "&#39;", "&lt", "&quot;", "&amp;amp;", "<i>", "</i>", "<br/>",
+                         "R&D", "&", "<", ">", "-->", "%", "$5", "#1", "a&b;"]),
     )
 
     @st.composite
@@ -75,7 +80,9 @@ def set_strategy(tier):
                          "sub": draw(st.integers(0, 33000))})
         if len(caps) >= 2 and draw(st.integers(0, 3)) == 0:
             caps[-1]["lines"] = list(caps[0]["lines"])      # a repeated caption text
-        return {"caps": caps, "lead": draw(st.sampled_from([0, 0, 1, 30, 3000])),
+        # where on the clock the set sits: around hour boundaries too (seconds added to all times)
+        base = draw(st.sampled_from([0, 0, 0, 3590, 3600, 3601, 7200, 7206, 35990, 36000, 86390, 359990]))
+        return {"caps": caps, "lead": draw(st.sampled_from([0, 0, 1, 30, 3000])), "base": base,
                 "reuse": draw(st.integers(0, 3)) == 0, "tight": tight}
     return build()
 
@@ -105,7 +112,7 @@ def build_set(case):
     t_free = Fraction(0)
     for i, c in enumerate(case["caps"]):
         if i == 0:
-            start = needs[0] + case["lead"] * FRAME + c["sub"]
+            start = needs[0] + case["lead"] * FRAME + c["sub"] + case.get("base", 0) * 10 ** 6
         elif tight:
             start = starts[-1] + needs[i] + (c["slack"] % 3) * FRAME + c["sub"] % 1000
         else:
